@@ -1,4 +1,5 @@
 mod engine;
+mod fam;
 mod props;
 mod refwin;
 mod rng;
